@@ -57,6 +57,9 @@ type Conn struct {
 	// (a timeout / reset noticed after the data left); 0 = never.
 	FailWriteAt int
 	writes      int
+	// ReadMax >= 1: a Read call returns at most that many bytes (short reads, as a TCP
+	// socket may deliver them); 0 = everything available.
+	ReadMax int
 }
 
 type addr string
@@ -67,6 +70,9 @@ func (a addr) String() string  { return string(a) }
 func (c *Conn) Read(p []byte) (int, error) {
 	if c.Closed {
 		return 0, io.ErrClosedPipe
+	}
+	if c.ReadMax > 0 && len(p) > c.ReadMax {
+		p = p[:c.ReadMax]
 	}
 	return c.In.Read(p)
 }
